@@ -157,6 +157,82 @@ def entails(st, a, b, c, typ_ub=None, depth=9):
     return False
 
 
+
+import json as _json
+import os as _os
+import re as _re
+
+_TBL = _os.path.join(_os.path.dirname(_os.path.dirname(_os.path.abspath(__file__))), "tables", "std_panics.json")
+STD_PANICS = _json.load(open(_TBL)) if _os.path.exists(_TBL) else {}
+_INTS = ("u8", "u16", "u32", "u64", "u128", "usize", "i8", "i16", "i32", "i64", "i128", "isize")
+
+# documented-panicking functions that are total under the stated assumptions of C07 (reviewed, one reason each)
+ASSUMED_TOTAL = {
+    "Vec::extend_from_slice": "capacity overflow beyond isize::MAX bytes only (allocation size: not decided, A-64)",
+    "Vec::with_capacity": "capacity overflow beyond isize::MAX bytes only (allocation size: not decided, A-64)",
+    "Vec::resize": "capacity overflow only (A-64)", "Vec::reserve": "capacity overflow only (A-64)",
+    "Vec::push": "capacity overflow only (A-64)", "Vec::append": "capacity overflow only (A-64)",
+    "Vec::extend_from_within": "modelled elsewhere when used",
+    "String::push_str": "capacity overflow only (A-64)", "String::push": "capacity overflow only (A-64)",
+    "String::with_capacity": "capacity overflow only (A-64)", "String::reserve": "capacity overflow only (A-64)",
+    "VecDeque::push_back": "capacity overflow only (A-64)", "VecDeque::with_capacity": "capacity overflow only (A-64)",
+    "BytesMut::reserve": "capacity overflow only (A-64)", "BytesMut::with_capacity": "capacity overflow only (A-64)",
+    "BytesMut::extend_from_slice": "capacity overflow only (A-64)", "BytesMut::resize": "capacity overflow only (A-64)",
+    "Mutex::lock": "panics/deadlocks only on re-entrant locking by the same thread: lock discipline, not input dependent",
+    "RwLock::read": "as Mutex::lock", "RwLock::write": "as Mutex::lock",
+    "Future::poll": "poll-after-completion: compiler generated await never re-polls a completed future",
+    "Iterator::enumerate": "index overflow beyond usize::MAX elements (A-64)", "Enumerate::next": "as enumerate",
+    "Iterator::position": "more than usize::MAX elements (A-64)", "Iterator::count": "more than usize::MAX elements (A-64)",
+    "Iterator::rposition": "more than usize::MAX elements (A-64)", "Iterator::sum": "debug overflow on accumulated lengths (A-64)",
+    "OnceLock::get_or_init": "propagates a panic of the initialiser only",
+    "Instant::elapsed": "documented: no longer panics (saturates) on current Rust",
+    "Instant::duration_since": "documented: no longer panics (saturates) on current Rust",
+    "[T]::sort_unstable": "only with an Ord implementation that is not a total order (keys are integers)",
+    "[T]::sort": "as sort_unstable", "[T]::sort_by_key": "as sort_unstable", "[T]::sort_unstable_by_key": "as sort_unstable",
+    "[T]::sort_by": "as sort_unstable", "[T]::sort_unstable_by": "as sort_unstable",
+    "Index::index": "modelled (slice/Vec/Bytes indexing); map indexing appears as call:index",
+    "IndexMut::index_mut": "modelled",
+    "Buf::get_u8": "modelled", "Buf::advance": "modelled", "Buf::copy_to_slice": "modelled", "Buf::copy_to_bytes": "modelled",
+    "Result::expect": "modelled (unwrap/expect site)", "Option::expect": "modelled", "Result::unwrap": "modelled", "Option::unwrap": "modelled",
+}
+
+
+def _strip_generics(p):
+    out, d = [], 0
+    for ch in p:
+        if ch == "<":
+            d += 1
+        elif ch == ">":
+            d -= 1
+        elif d == 0:
+            out.append(ch)
+    return "".join(out)
+
+
+def panic_keys(path):
+    """candidate keys of tables/std_panics.json for a MIR callee path"""
+    if not path:
+        return []
+    m = _re.match(r"^<(.+) as (.+)>::(\w+)$", path)
+    if m:
+        ty = _strip_generics(m.group(1)).split("::")[-1].strip("&").strip()
+        if ty.startswith("["):
+            ty = "[T]"
+        return ["%s::%s" % (ty, m.group(3)), "%s::%s" % (_strip_generics(m.group(2)).split("::")[-1], m.group(3))]
+    m = _re.search(r"<impl (.+?)>::(\w+)$", path)
+    if m:
+        ty = m.group(1)
+        if ty in _INTS:
+            return ["%s::%s" % ("uint_macros" if ty[0] == "u" else "int_macros", m.group(2)), "%s::%s" % (ty, m.group(2))]
+        if ty.startswith("["):
+            return ["[T]::%s" % m.group(2)]
+        return ["%s::%s" % (_strip_generics(ty).split("::")[-1], m.group(2))]
+    segs = [x for x in _strip_generics(path).split("::") if x]
+    if len(segs) >= 2:
+        return ["%s::%s" % (segs[-2], segs[-1])]
+    return []
+
+
 class Site:
     def __init__(self, body, bi, kind, desc, src, expansion):
         self.fn = body.name
@@ -477,6 +553,48 @@ class Analyzer:
 
     # ------------------------------------------------------------------ calls
     def do_call(self, st, bi, t, site_cb):
+        """library model first; then the catch-all: a call of a std/bytes function whose documentation has a
+        `# Panics` section (tables/std_panics.json, generated from rust-src) that the model did not handle and that
+        is not on the reviewed ASSUMED_TOTAL list becomes a site of its own (never proven here: it must be
+        justified in the reviewed table)."""
+        n0 = len(self.sites)
+        self._handled = False
+        self._do_call_model(st, bi, t, site_cb)
+        if len(self.sites) != n0 or self._handled:
+            return
+        f = t["f"]
+        if f.get("k") != "c":
+            return
+        hit = None
+        for cand in (f.get("res"), f.get("fn")):
+            for k in panic_keys(cand):
+                if k in STD_PANICS:
+                    hit = k
+                    break
+            if hit:
+                break
+        if hit is None or hit in ASSUMED_TOTAL:
+            return
+        b = self.b
+        if hit.endswith(("::range", "::range_mut")) and len(t["a"]) == 2:
+            ra = t["a"][1]
+            rng = self.ranges.get(ra["p"]["l"]) if ra["k"] in ("cp", "mv") and "p" not in ra["p"] else None
+            rty = b.locals[ra["p"]["l"]]["ty"] if ra["k"] in ("cp", "mv") else ""
+            if any(x in rty for x in ("RangeFrom<", "RangeTo<", "RangeToInclusive<", "RangeFull")):
+                return           # one-sided ranges cannot be inverted
+            s = Site(b, bi, "call:%s" % hit, "requires start <= end", t.get("src"), t["sp"]["x"])
+            self.sites.append(s)
+            if rng is not None and rng[0] in ("Range", "RangeInclusive"):
+                a, e = self.lf(rng[1][0]), self.lf(rng[1][1])
+                s.proven = self.need_lf_ge(st, s, e, a, 0, "start <= end")
+            else:
+                s.obligations.append(("range operand not tracked", False))
+            return
+        s = Site(b, bi, "call:%s" % hit, "documented to panic: %s" % STD_PANICS[hit]["panics"][:100], t.get("src"), t["sp"]["x"])
+        s.obligations.append(("documented `# Panics`: %s" % STD_PANICS[hit]["panics"][:120], False))
+        self.sites.append(s)
+
+    def _do_call_model(self, st, bi, t, site_cb):
         b = self.b
         path = mir.callee_path(t["f"]) or ""
         gen = mir.callee_generic(t["f"]) or ""
@@ -519,6 +637,10 @@ class Analyzer:
         if (path.endswith("::is_empty") or gen.endswith("::is_empty")) and len(args) == 1:
             kill_result()
             self.ranges[dl] = ("is_empty", a0key)
+            return
+        if path.endswith("RangeInclusive::<Idx>::new") and len(args) == 2 and dl is not None:
+            self.ranges[dl] = ("RangeInclusive", [args[0], args[1]])
+            self._handled = True
             return
         # ---- cursor reads
         if name in GET_FIXED and ("Buf::" in path or "Buf::" in gen or "bytes::" in path):
@@ -616,6 +738,7 @@ class Analyzer:
             if any(g in recv_ty for g in GROWABLE):
                 for k_ in [k_ for k_ in st.f if k_[1] == a0key]:
                     del st.f[k_]
+                self._handled = True
                 return
             s = newsite("call:%s" % name, "BufMut on a fixed slice requires remaining_mut")
             s.proven = False
@@ -640,6 +763,7 @@ class Analyzer:
                     s.proven = True
                     result_len_eq(a0key)
                     self.sites.pop()
+                    self._handled = True
                     return
                 s.proven = False
                 s.obligations.append(("range operand not tracked", False))
@@ -648,6 +772,7 @@ class Analyzer:
             kind, ops = rng
             if kind == "RangeFull":
                 self.sites.pop()
+                self._handled = True
                 result_len_eq(a0key)
                 return
             if kind == "Range":
